@@ -363,6 +363,7 @@ def strings_in(v):
             yield from strings_in(x)
 
 
+FILE_NAMES = {"notes.txt", "./data.yaml", "data.yaml"}
 CLASH = {"items", "values", "keys", "get", "pop", "update", "clone"}
 
 
@@ -384,7 +385,9 @@ def make_case(rng, t, v, modes=None, key=None):
         for k in reversed(key[1:]):
             inner = "{%s: %s}" % (json.dumps(k), inner)
         docs_extra["json_mixed"] = "{%s: %s, %s: 4}" % (json.dumps(key[0]), inner, json.dumps(key[0] + ".zz.deep"))
-    enable_path = bool(items) and rng.random() < 0.5
+    # declared with enable_path=True (as CLI / sub_configs do): half of the entry-wise settings, and every one with an entry
+    # whose text names a readable file of the runner's working directory
+    enable_path = bool(items) and (rng.random() < 0.5 or any(x in FILE_NAMES for _, x in items))
     return {"mixed": mixed, "enable_path": enable_path, "docs_extra": docs_extra, "items": items, "ty": t, "key": key, "hyphen": rng.random() < 0.3 and any("_" in k for k in key), "prefix": rng.choice(PREFIXES),
             "val": v, "text": top_text(v), "docs": dict(make_docs(key, v), **docs_extra), "modes": modes}
 
